@@ -193,6 +193,10 @@ func (o *h3origin) serve(w http.ResponseWriter, r *http.Request) {
 			return true
 		case <-r.Context().Done():
 			s.sawCancel.Store(true)
+			if s.early { // a handler that does not watch its context: only the gate lets it go on
+				<-s.gates[i]
+				return true
+			}
 			return false
 		case <-time.After(60 * time.Second):
 			return false
@@ -671,7 +675,9 @@ func runH3(sp h3spec, kind string, pos int, racy bool) (o h3obs) {
 		o.PeerSawCancel = r.sc.sawCancel.Load()
 	default:
 	}
-	r.sc.openAll()
+	if !sp.EarlyRsp { // (there the handler stays parked: nothing the peer does may be what ends the upload)
+		r.sc.openAll()
+	}
 	var gs []string
 	o.Quiesced = settle(func() bool {
 		gs = libGoroutines()
@@ -684,7 +690,18 @@ func runH3(sp h3spec, kind string, pos int, racy bool) (o h3obs) {
 			o.Stuck = append(o.Stuck, topFrames(g))
 		}
 	}
+	if sp.EarlyRsp && body != nil {
+		settle(func() bool { return body.closes.Load() > 0 })
+		o.ReqBodyClosed = body.closes.Load() > 0
+		r.sc.openAll()
+	}
 	if body != nil {
+		closedBefore := o.ReqBodyClosed
+		defer func() {
+			if sp.EarlyRsp {
+				o.ReqBodyClosed = closedBefore
+			}
+		}()
 		body.markStop()
 		settle(func() bool { return body.closes.Load() > 0 })
 		o.ReqBodyClosed = body.closes.Load() > 0
